@@ -468,7 +468,7 @@ func (c *Ctx) doAppend(fr *Frame, st *State, reach T, cc *ssa.CallCommon, args [
 	fits := c.sc.def("app.fits", sBool, le(n, s.L[3]))
 	nref := c.allocRef(st, "append")
 	ncap := c.sc.fresh("app.cap", sInt)
-	c.sc.assume(and(ge(ncap, n), lt(ncap, maxLenTerm)))
+	c.sc.assume(imp(reach, and(ge(ncap, n), lt(ncap, maxLenTerm))))
 	small := -1
 	if isNumeral(tlen) {
 		fmt.Sscanf(tlen, "%d", &small)
@@ -532,7 +532,7 @@ func (c *Ctx) appendStructs(fr *Frame, st *State, reach T, cc *ssa.CallCommon, a
 	// for struct slices), copying the old elements
 	nref := c.allocRef(st, "append")
 	ncap := c.sc.fresh("app.cap", sInt)
-	c.sc.assume(and(ge(ncap, n), lt(ncap, maxLenTerm)))
+	c.sc.assume(imp(reach, and(ge(ncap, n), lt(ncap, maxLenTerm))))
 	sv := c.loadStruct(st, el, c.elemRef(el, t.L[0], t.L[1]))
 	// copy: for every field key of el, elements at elemref(nref,i) = elemref(s.ref, off+i)
 	c.copyStructElems(st, el, s.L[0], s.L[1], nref, s.L[2])
